@@ -141,7 +141,9 @@ def discharge(hyp, goal, timeout_s=10.0, model_vars=None, use_cvc5=True, seed=0)
     a_hyp, a_goal = _abstract_array_predicates([hyp, goal])
     abstracted = not (a_hyp.eq(hyp) and a_goal.eq(goal))
     s = z3.Solver()
-    s.set("timeout", int(min(timeout_s, 3.0 * float(os.environ.get("VERIF_TIMEOUT_SCALE", "1"))) * 1000) if abstracted else int(timeout_s * 1000))
+    # first attempt with a short budget: almost every obligation closes in milliseconds; the ones that do not are retried in a
+    # fresh context / with abstraction below, which is both faster and more stable than waiting here
+    s.set("timeout", int(min(timeout_s, 4.0 * float(os.environ.get("VERIF_TIMEOUT_SCALE", "1"))) * 1000))
     s.add(hyp)
     s.add(z3.Not(goal))
     try:
@@ -181,6 +183,22 @@ def discharge(hyp, goal, timeout_s=10.0, model_vars=None, use_cvc5=True, seed=0)
                 res["time_s"] = round(time.time() - t0, 4)
                 return res
     res = {"backend": "z3-" + z3.get_version_string(), "model": None}
+    if r == z3.unknown:
+        # The same query is often closed at once when its terms are rebuilt in a FRESH z3 context (variable ordering of the
+        # nonlinear solver depends on internal term ids, which grow with everything created before): retry there.
+        try:
+            ctx = z3.Context()
+            sf = z3.Solver(ctx=ctx)
+            sf.set("timeout", int(timeout_s * 1000))
+            sf.add(hyp.translate(ctx))
+            sf.add(z3.Not(goal).translate(ctx))
+            rf = sf.check()
+            if rf == z3.unsat:
+                r = z3.unsat
+                res["backend"] = "z3-" + z3.get_version_string() + " (fresh context)"
+            del sf, ctx
+        except z3.Z3Exception:
+            pass
     if r == z3.unsat:
         res["status"] = "discharged"
     elif r == z3.sat:
